@@ -3,11 +3,29 @@
 package main
 
 import (
+	"net/http"
 	"strconv"
 	"strings"
 
+	"github.com/jub0bs/cors"
 	"github.com/jub0bs/cors/internal/origins"
 )
+
+// the same verdicts through the public API: ACAO on the response to a GET carrying the probe Origin.
+// Returns nil when the pattern list is not an acceptable anonymous configuration as a whole.
+func runTreeViaMiddleware(pats, probes []string) SL {
+	m, err := cors.NewMiddleware(cors.Config{Origins: pats, ExtraConfig: cors.ExtraConfig{DangerouslyTolerateSubdomainsOfPublicSuffixes: true}})
+	if err != nil {
+		return nil
+	}
+	res := make(SL, len(probes))
+	for i, o := range probes {
+		out := serveOnce(m, reqT{method: "GET", hdrs: http.Header{"Origin": {o}}}, http.Header{})
+		v := out.hdrs["Access-Control-Allow-Origin"]
+		res[i] = Bool(len(v) == 1 && v[0] == o)
+	}
+	return res
+}
 
 // C01: pattern lists (every order) x near-miss origins.
 var (
@@ -188,8 +206,12 @@ func famTree(o *Out, r R, tier string) {
 			}
 		}
 		res, elems, npat := runTree(pats, probes)
+		via := runTreeViaMiddleware(pats, probes)
+		if via == nil {
+			via = SL{Y("none")}
+		}
 		o.emit("tree", npat > 0, kind+"/n="+strconv.Itoa(len(pats)),
-			KV("pats", BL(pats)), KV("origins", BL(probes)), KV("impl", res), KV("elems", BL(elems)), oracleFor(pats))
+			KV("pats", BL(pats)), KV("origins", BL(probes)), KV("impl", res), KV("elems", BL(elems)), KV("viamw", via), oracleFor(pats))
 	}
 	// regression corpus (GHSA-vhxv-fg4m-p2w8 shape, F1, F3, duplicates)
 	corpus := [][]string{
